@@ -65,6 +65,9 @@ def tensorize_2D(x, unsqueeze_dim: int, dtype=torch.float32) -> torch.Tensor:
     """
     # convert to torch.Tensor if not the case
     if not isinstance(x, torch.Tensor):
+        if isinstance(x, np.ndarray):
+            # views with negative strides (e.g. `ages[::-1]`) are not supported by torch
+            x = x.copy(order="C")
         x = torch.tensor(x, dtype=dtype)
     # convert dtype if needed
     if x.dtype != dtype:
@@ -156,6 +159,9 @@ def tensorize_2D(x, unsqueeze_dim: int, dtype=torch.float32) -> torch.Tensor:
     """
     # convert to torch.Tensor if not the case
     if not isinstance(x, torch.Tensor):
+        if isinstance(x, np.ndarray):
+            # views with negative strides (e.g. `ages[::-1]`) are not supported by torch
+            x = x.copy(order="C")
         x = torch.tensor(x, dtype=dtype)
     # convert dtype if needed
     if x.dtype != dtype:
